@@ -133,10 +133,13 @@ class Recorder:
         return ev
 
     # ---------------------------------------------------------------- helpers
-    def obs_record(self, env, obs_arr, post_tensor):
+    def obs_record(self, env, obs_arr, post_tensor, obs_obj=None):
         o = np.asarray(obs_arr)
         nrows = self.nh + 1
         rec = dict(shape=[int(x) for x in o.shape], dtype=str(o.dtype), is_ndarray=isinstance(obs_arr, np.ndarray))
+        if obs_obj is not None:
+            rec["flat_sha"] = sha(o.reshape(-1))
+            rec["twod_sha"] = sha(np.asarray(obs_obj.numpy()).reshape(-1))
         try:
             rec["in_space"] = bool(env.observation_space.contains(obs_arr))
         except Exception:
@@ -197,6 +200,10 @@ class Recorder:
                    space_shape=[int(x) for x in sp.shape], space_dtype=str(sp.dtype),
                    low=milli(np.min(sp.low)), high=milli(np.max(sp.high)),
                    steps=int(env.steps))
+        if flat_actions:
+            adv["space_n"] = int(env.action_space.n)
+        else:
+            adv["nvec"] = [int(x) for x in env.action_space.nvec]
         self.last_post[eid] = t.copy()
         return self.emit(dict(ev="create", env=eid,
                               modes=dict(fo=bool(fully_obs), fa=bool(flat_actions), f1=bool(flat_obs)),
@@ -240,9 +247,12 @@ class Recorder:
                     value=milli(info["value"]), disc=addrs(info["discovered"]),
                     newly=addrs(info["newly_discovered"]))
 
-    def step(self, eid, spec, u):
+    def step(self, eid, spec, u, grp=None):
+        arg, adesc = self.action_arg(self.envs[eid], spec)
+        return self.step_raw(eid, arg, adesc, u, grp)
+
+    def step_raw(self, eid, arg, adesc, u, grp=None):
         env = self.envs[eid]
-        arg, adesc = self.action_arg(env, spec)
         before = env.current_state.tensor.copy()
         steps_before = int(env.steps)
         with self.trip.scripted(u):
@@ -258,7 +268,7 @@ class Recorder:
                   entropy=list(self.trip.others),
                   pre_rows=diff_rows(self.last_post[eid], before),
                   post_rows=diff_rows(before, after),
-                  obs=self.obs_record(env, obs, after),
+                  obs=self.obs_record(env, obs, after, env.last_obs),
                   reward=milli(reward), term=bool(term), trunc=bool(trunc),
                   info=self._info(info), steps_before=steps_before, steps_after=int(env.steps),
                   arity=arity,
@@ -268,10 +278,12 @@ class Recorder:
                   shares_memory=bool(np.shares_memory(before, after)),
                   installed=bool(np.array_equal(env.last_obs.numpy().reshape(-1), np.asarray(obs).reshape(-1))),
                   lastobs_sha=sha(env.last_obs.numpy()), cur_sha=sha(after))
+        if grp is not None:
+            ev["grp"] = grp
         self.last_post[eid] = after.copy()
         return self.emit(ev)
 
-    def genstep(self, eid, state, spec, u):
+    def genstep(self, eid, state, spec, u, grp=None):
         """state: an implementation State object (e.g. one returned earlier), or None = env.current_state"""
         env = self.envs[eid]
         arg, adesc = self.action_arg(env, spec)
@@ -299,7 +311,7 @@ class Recorder:
                   entropy=list(self.trip.others),
                   pre_rows=diff_rows(self.last_post[eid], arg_copy),
                   post_rows=diff_rows(arg_copy, nstate.tensor),
-                  obs=self.obs_record(env, oarr, nstate.tensor),
+                  obs=self.obs_record(env, oarr, nstate.tensor, obs),
                   reward=milli(reward), term=bool(term), info=self._info(info),
                   steps_before=steps_before, steps_after=int(env.steps), arity=arity,
                   arg_sha=[arg_before, sha(state.tensor)],
@@ -308,6 +320,8 @@ class Recorder:
                   shares_memory=bool(np.shares_memory(state.tensor, nstate.tensor)
                                      or np.shares_memory(env.current_state.tensor, nstate.tensor)),
                   cur_drift=diff_rows(cur_copy, env.current_state.tensor))
+        if grp is not None:
+            ev["grp"] = grp
         return self.emit(ev), nstate
 
     def goal(self, eid, state):
@@ -318,6 +332,94 @@ class Recorder:
         except Exception as exc:   # noqa
             return self.raised(eid, "goal_reached", exc, "C06", "goal_query_any_state")
         return self.emit(dict(ev="goal", env=eid, pre_rows=diff_rows(self.last_post[eid], t), ans=ans))
+
+
+
+    # ------------------------------------------------ action spaces, decoders
+    def actions(self, eid):
+        env = self.envs[eid]
+        return self.emit(dict(ev="actions", env=eid, list=[project_action(a) for a in env.action_space.actions]))
+
+    def decode_all(self, eid, limit=None):
+        """decode every vector of the parameterised space (exhaustive), or a seeded sample"""
+        import itertools
+        env = self.envs[eid]
+        nvec = [int(x) for x in env.action_space.nvec]
+        n = 0
+        for vec in itertools.product(*[range(k) for k in nvec]):
+            self.decode(eid, list(vec), ["list", "tuple", "ndarray"][n % 3])
+            n += 1
+            if limit and n >= limit:
+                return n
+        self.emit(dict(ev="decode_done", env=eid, n=n))
+        return n
+
+    def decode(self, eid, vec, enc="list"):
+        env = self.envs[eid]
+        arg = {"list": list(vec), "tuple": tuple(vec), "ndarray": np.array(vec, dtype=np.int64)}[enc]
+        try:
+            a = env.action_space.get_action(arg)
+        except Exception as exc:   # noqa
+            return self.raised(eid, "get_action", exc, "C11", "param_decodes_without_error", dict(vec=list(vec)))
+        return self.emit(dict(ev="decode", env=eid, vec=[int(x) for x in vec], enc=enc, got=project_action(a)))
+
+    def mask(self, eid):
+        env = self.envs[eid]
+        t = env.current_state.tensor
+        try:
+            m = env.get_action_mask()
+        except Exception as exc:   # noqa
+            return self.raised(eid, "get_action_mask", exc, "C11", "mask_iff_discovered")
+        return self.emit(dict(ev="mask", env=eid, pre_rows=diff_rows(self.last_post[eid], t),
+                              mask=[int(x) for x in np.asarray(m).reshape(-1)]))
+
+    def _readable_host(self, d, cs):
+        a = d["Address"]
+        return dict(addr=[int(a[0]), int(a[1])], comp=bool(d["Compromised"]), reach=bool(d["Reachable"]),
+                    disc=bool(d["Discovered"]), value=milli(d["Value"]), dvalue=milli(d["Discovery Value"]),
+                    access=milli(d["Access"]), os=[n for n in cs["os"] if d.get(n)],
+                    srvs=[n for n in cs["services"] if d.get(n)], procs=[n for n in cs["processes"] if d.get(n)])
+
+    def readable_state(self, eid, cs):
+        """State.from_numpy on the flattened current tensor, then get_readable()"""
+        from nasim.envs.state import State
+        env = self.envs[eid]
+        st = env.current_state
+        try:
+            st2 = State.from_numpy(st.numpy_flat(), st.shape(), st.host_num_map)
+            rd = st2.get_readable()
+        except Exception as exc:   # noqa
+            return self.raised(eid, "State.from_numpy/get_readable", exc, "C09", "from_numpy_roundtrip")
+        return self.emit(dict(ev="readable", env=eid, what="state", rows=rows_of(st.tensor),
+                              readable=[self._readable_host(d, cs) for d in rd],
+                              roundtrip_diff=diff_rows(st.tensor, st2.tensor),
+                              shape_ok=bool(st2.tensor.shape == st.tensor.shape)))
+
+    def readable_obs(self, eid, cs, obs_arr):
+        """Observation.from_numpy on an array returned by reset/step, then get_readable()"""
+        from nasim.envs.observation import Observation
+        env = self.envs[eid]
+        try:
+            o2 = Observation.from_numpy(np.asarray(obs_arr), env.current_state.shape())
+            hosts, aux = o2.get_readable()
+        except Exception as exc:   # noqa
+            return self.raised(eid, "Observation.from_numpy/get_readable", exc, "C09", "from_numpy_roundtrip")
+        ref = np.asarray(obs_arr).reshape(self.nh + 1, -1)
+        return self.emit(dict(ev="readable", env=eid, what="obs", rows=rows_of(ref[:self.nh]),
+                              aux=rows_of(ref[self.nh])[0],
+                              readable=[self._readable_host(d, cs) for d in hosts],
+                              aux_readable=dict(success=bool(aux["Success"]), conn=bool(aux["Connection Error"]),
+                                                perm=bool(aux["Permission Error"]), undef=bool(aux["Undefined Error"])),
+                              roundtrip_diff=diff_rows(ref, o2.tensor),
+                              shape_ok=bool(tuple(o2.tensor.shape) == (self.nh + 1, ref.shape[1]))))
+
+    def sample_step(self, eid, u):
+        """step with whatever the action space's own sampler returns"""
+        env = self.envs[eid]
+        x = env.action_space.sample()
+        if env.flat_actions:
+            return self.step_raw(eid, x, dict(enc="npint", idx=int(x)), u)
+        return self.step_raw(eid, x, dict(enc="ndarray", vec=[int(v) for v in np.asarray(x).reshape(-1)]), u)
 
 
 def make_action_object(d):
